@@ -13,6 +13,7 @@
 package main
 
 import (
+	"verif/h/rig"
 	"encoding/json"
 	"fmt"
 	"os"
@@ -109,6 +110,10 @@ type replayCase struct {
 }
 
 func main() {
+	if len(os.Args) > 1 && os.Args[1] == "node" {
+		rig.ChildMain() // node rig child of part 3
+		return
+	}
 	if os.Getenv("C18_STAGE") == "framing" {
 		framingChildMain()
 		return
